@@ -26,4 +26,10 @@ def toRdkit : List (Nat × String) := [(0, "UNSPECIFIED"), (1, "SINGLE"), (2, "D
 def fromRdkit : List (String × Nat) := [("UNSPECIFIED", 0), ("SINGLE", 1), ("DOUBLE", 2), ("TRIPLE", 3), ("QUADRUPLE", 4), ("DATIVE", 8)]
 /-- `_KEKULIZED_TO_AROMATIC_BOND_TYPE`. -/
 def kekulizedToAromatic : List (Nat × Nat) := [(1, 5), (2, 6), (3, 7)]
+/-- header.py: constant slices of `lines[1]` in `Header.deserialize`, in source order. -/
+def headerSlices : List (Nat × Nat) := [(0, 2), (2, 10), (10, 20), (20, 22), (22, 34), (34, 46), (46, 52)]
+/-- header.py: (width, precision) of the `>w.p` fields of the second header line in `Header.serialize`. -/
+def headerFields : List (Nat × Nat) := [(2, 2), (8, 8), (10, 10), (2, 2), (12, 12), (12, 12), (6, 6)]
+def headerDateFormat : String := "%m%d%y%H%M"
+def headerNameLimit : Nat := 80
 end BiotiteModel.Gen.C18
